@@ -4,6 +4,7 @@ package rules
 import (
 	"fmt"
 	"go/ast"
+	"go/importer"
 	"go/parser"
 	"go/token"
 	"go/types"
@@ -12,6 +13,7 @@ import (
 
 	"golang.org/x/tools/go/packages"
 	"golang.org/x/tools/go/ssa"
+	"golang.org/x/tools/go/ssa/ssautil"
 
 	"verif/checker/internal/core"
 	"verif/checker/internal/ir"
@@ -201,4 +203,41 @@ func declOf(fn *ssa.Function) (string, string) {
 		return r, fd.Name.Name
 	}
 	return "", fn.Name()
+}
+
+// ---------------------------------------------------------------------------
+// canaries: import-free snippets built to SSA in memory; an expected-zero
+// census must recognise its positive example on every run.
+
+func buildSnippet(src string) *ssa.Package {
+	fset := token.NewFileSet()
+	f, err := parser.ParseFile(fset, "canary.go", src, 0)
+	if err != nil {
+		return nil
+	}
+	pkg := types.NewPackage("canary", "canary")
+	sp, _, err := ssautil.BuildPackage(&types.Config{Importer: importer.Default()}, fset, pkg, []*ast.File{f}, ssa.BuilderMode(0))
+	if err != nil {
+		return nil
+	}
+	return sp
+}
+
+// canaryUnsafe: the census predicate recognises an unsafe.Pointer conversion.
+func canaryUnsafe() bool {
+	sp := buildSnippet(`package canary
+import "unsafe"
+func F(p *int) *byte { return (*byte)(unsafe.Pointer(p)) }`)
+	if sp == nil {
+		return false
+	}
+	n := 0
+	for _, b := range sp.Func("F").Blocks {
+		for _, in := range b.Instrs {
+			if cv, ok := in.(*ssa.Convert); ok && (isUnsafePtr(cv.Type()) || isUnsafePtr(cv.X.Type())) {
+				n++
+			}
+		}
+	}
+	return n >= 2
 }
